@@ -14,7 +14,7 @@ import tempfile
 import numpy as np
 
 from mc.core import Report, viol, collect_samples
-from mc.molecules import (write_xyz, quat_to_matrix, cube_rotations, generic_quaternions, fibonacci_directions,
+from mc.molecules import (write_xyz, file_coords, quat_to_matrix, cube_rotations, generic_quaternions, fibonacci_directions,
                           special_quaternions)
 
 from molgri.io import OneMoleculeReader
@@ -63,8 +63,8 @@ def run_case(case):
         arr = make_array(spec)
         u1 = OneMoleculeReader(p1).get_molecule()
         u2 = OneMoleculeReader(p2).get_molecule()
-        raw1 = np.array([a[1:] for a in __import__("mc.molecules", fromlist=["MOLECULES"]).MOLECULES[m1]], dtype=float)
-        raw2 = np.array([a[1:] for a in __import__("mc.molecules", fromlist=["MOLECULES"]).MOLECULES[m2]], dtype=float)
+        raw1 = __import__("mc.molecules", fromlist=["file_coords"]).file_coords(m1)
+        raw2 = __import__("mc.molecules", fromlist=["file_coords"]).file_coords(m2)
         mass1, mass2 = u1.atoms.masses.astype(float), u2.atoms.masses.astype(float)
         ref1 = raw1 - (mass1[:, None] * raw1).sum(0) / mass1.sum()
         ref2 = raw2 - (mass2[:, None] * raw2).sum(0) / mass2.sum()
@@ -191,8 +191,7 @@ def ptwriter_case(case):
         from mc.molecules import MOLECULES
         u1 = OneMoleculeReader(p1).get_molecule()
         u2 = OneMoleculeReader(p2).get_molecule()
-        raw1 = np.array([a[1:] for a in MOLECULES[m1]], dtype=float)
-        raw2 = np.array([a[1:] for a in MOLECULES[m2]], dtype=float)
+        raw1, raw2 = file_coords(m1), file_coords(m2)
         ms1, ms2 = u1.atoms.masses.astype(float), u2.atoms.masses.astype(float)
         ref1 = raw1 - (ms1[:, None] * raw1).sum(0) / ms1.sum()
         ref2 = raw2 - (ms2[:, None] * raw2).sum(0) / ms2.sum()
@@ -271,6 +270,10 @@ def cases(tier):
         for m1 in ("H2O", "He"):
             for a in arrays:
                 out.append({"m1": m1, "m2": m2, "array": a})
+    # the same molecules read from other file formats (gro: nanometres on disk; pdb: fixed columns)
+    for m1, m2 in (("H2O@gro", "CHFClBr@gro"), ("H2O@pdb", "CHFClBr@pdb"), ("H2O", "NH3@gro"), ("H2O@gro", "HF@pdb")):
+        for a in (arrays[1], arrays[3]):
+            out.append({"m1": m1, "m2": m2, "array": a})
     out.append({"m1": "He", "m2": "HF", "array": {"type": "nongrid", "name": "nongrid_large_17100", "n_pos": 6, "n_generic": 6,
                                                  "order": "large"}})
     return out
